@@ -186,6 +186,76 @@ func genSchema(repo string) (string, error) {
 		}
 		return false
 	}
+	constStrings = p.stringConsts()
+	// helpers that only look at attributes (xml.StartElement / []xml.Attr, no decoder): their literals count for
+	// the reader functions that call them - what the helper reads ends up in the value the caller builds
+	takesDecoder := func(fd *ast.FuncDecl) bool {
+		for _, prm := range fd.Type.Params.List {
+			if exprString(prm.Type) == "*xml.Decoder" {
+				return true
+			}
+		}
+		return false
+	}
+	funcLits := func(fd *ast.FuncDecl) map[string]bool {
+		lits := map[string]bool{}
+		ast.Inspect(fd.Body, func(n ast.Node) bool {
+			switch x := n.(type) {
+			case *ast.CaseClause:
+				for _, e := range x.List {
+					if blv, ok := strLit(e); ok {
+						lits[blv] = true
+					}
+				}
+			case *ast.CallExpr:
+				if callName(x) == "getAttributeValue" && len(x.Args) == 2 {
+					if blv, ok := strLit(x.Args[1]); ok {
+						lits[blv] = true
+					}
+				}
+			case *ast.BinaryExpr:
+				if x.Op == token.EQL || x.Op == token.NEQ {
+					for _, e := range []ast.Expr{x.X, x.Y} {
+						if blv, ok := strLit(e); ok {
+							lits[blv] = true
+						}
+					}
+				}
+			}
+			return true
+		})
+		return lits
+	}
+	attrHelpers := map[string]*ast.FuncDecl{}
+	for _, fd := range p.allFuncs() {
+		if fd.Body != nil && isReader(fd) && !takesDecoder(fd) && fd.Name.Name != "MarshalXML" && fd.Name.Name != "getAttributeValue" {
+			attrHelpers[fd.Name.Name] = fd
+		}
+	}
+	var helperLits func(fd *ast.FuncDecl, seen map[string]bool, into map[string]bool)
+	helperLits = func(fd *ast.FuncDecl, seen map[string]bool, into map[string]bool) {
+		ast.Inspect(fd.Body, func(n ast.Node) bool {
+			ce, ok := n.(*ast.CallExpr)
+			if !ok {
+				return true
+			}
+			name := ""
+			switch f := ce.Fun.(type) {
+			case *ast.Ident:
+				name = f.Name
+			case *ast.SelectorExpr:
+				name = f.Sel.Name
+			}
+			if h, ok := attrHelpers[name]; ok && !seen[name] {
+				seen[name] = true
+				for l := range funcLits(h) {
+					into[l] = true
+				}
+				helperLits(h, seen, into)
+			}
+			return true
+		})
+	}
 	known := map[string]map[string]bool{}
 	anyCases := map[string]bool{}
 	nReaders := 0
@@ -195,26 +265,27 @@ func genSchema(repo string) (string, error) {
 		}
 		nReaders++
 		lits := map[string]bool{}
+		helperLits(fd, map[string]bool{fd.Name.Name: true}, lits)
 		built := map[string]bool{}
 		ast.Inspect(fd.Body, func(n ast.Node) bool {
 			switch x := n.(type) {
 			case *ast.CaseClause:
 				for _, e := range x.List {
-					if bl, ok := e.(*ast.BasicLit); ok && bl.Kind == token.STRING {
-						lits[unquote(bl.Value)] = true
+					if blv, ok := strLit(e); ok {
+						lits[blv] = true
 					}
 				}
 			case *ast.CallExpr:
 				if callName(x) == "getAttributeValue" && len(x.Args) == 2 {
-					if bl, ok := x.Args[1].(*ast.BasicLit); ok && bl.Kind == token.STRING {
-						lits[unquote(bl.Value)] = true
+					if blv, ok := strLit(x.Args[1]); ok {
+						lits[blv] = true
 					}
 				}
 			case *ast.BinaryExpr:
 				if x.Op == token.EQL || x.Op == token.NEQ {
 					for _, e := range []ast.Expr{x.X, x.Y} {
-						if bl, ok := e.(*ast.BasicLit); ok && bl.Kind == token.STRING {
-							lits[unquote(bl.Value)] = true
+						if blv, ok := strLit(e); ok {
+							lits[blv] = true
 						}
 					}
 				}
